@@ -548,5 +548,460 @@ theorem varRec_nodup (m : ModMap) (mode : Mode) (mc : Int) :
               rw [e1] at e2
               exact hne g hg e2
 
+/-! ### mode skip: the recursion is the bounded subset enumeration -/
+
+/-- eligible sites seen by the recursion from `idx` on -/
+def elig (m : ModMap) (a : Annotation) : (rem idx : Nat) → List (Int × List Group)
+  | 0, _ => []
+  | rem + 1, idx =>
+    (match mapGet m (idx : Int), modsAt a (idx : Int) with
+      | some gs, none => [((idx : Int), gs)]
+      | _, _ => []) ++ elig m a rem (idx + 1)
+
+/-- choices of at most `k` sites, one group each, in the order of the recursion -/
+def enum : List (Int × List Group) → Nat → List (List (Int × Group))
+  | [], _ => [[]]
+  | _ :: _, 0 => [[]]
+  | (i, gs) :: E, k + 1 => (gs.flatMap fun g => (enum E k).map ((i, g) :: ·)) ++ enum E (k + 1)
+
+theorem enum_zero (E : List (Int × List Group)) : enum E 0 = [[]] := by
+  cases E <;> rfl
+
+theorem elig_congr (m : ModMap) (a a' : Annotation) :
+    ∀ (rem idx : Nat), (∀ j : Int, (idx : Int) ≤ j → modsAt a' j = modsAt a j) → elig m a' rem idx = elig m a rem idx := by
+  intro rem
+  induction rem with
+  | zero => intros; rfl
+  | succ rem ih =>
+    intro idx h
+    simp only [elig]
+    rw [h (idx : Int) (by omega), ih (idx + 1) (fun j hj => h j (by omega))]
+
+theorem withChoice_cons (a a' : Annotation) (i : Int) (g : Group)
+    (h : a' = { a with internal := some (imods a ++ [(i, g)]) }) (T : List (Int × Group)) :
+    withChoice a' T = withChoice a ((i, g) :: T) := by
+  subst h
+  unfold withChoice
+  by_cases hT : T = []
+  · subst hT; simp
+  · simp [hT, imods]
+
+theorem varRec_skip_eq (m : ModMap) (mc : Int) :
+    ∀ (rem idx : Nat) (a : Annotation) (k : Nat), (countModified a : Int) + k = mc →
+      varRec m .skip mc rem idx a = (enum (elig m a rem idx) k).map (withChoice a) := by
+  intro rem
+  induction rem with
+  | zero => intro idx a k _; simp [varRec, elig, enum, withChoice]
+  | succ rem ih =>
+    intro idx a k hk
+    unfold varRec
+    cases k with
+    | zero =>
+      have : (countModified a : Int) = mc := by omega
+      simp [this, enum_zero, withChoice]
+    | succ k =>
+      have hne : ¬ (countModified a : Int) = mc := by omega
+      simp only [hne, if_false]
+      have hex := ih (idx + 1) a (k + 1) hk
+      cases hm : mapGet m (idx : Int) with
+      | none => simp only [hm, elig, List.nil_append, hex]
+      | some gs =>
+        cases ho : modsAt a (idx : Int) with
+        | some o =>
+          have : ∀ g, varStep .skip a (idx : Int) g = none := fun g => varStep_eq_none.mpr ⟨rfl, by simp [ho]⟩
+          simp only [hm, ho, elig, this, flatMap_const_nil, List.nil_append, hex]
+        | none =>
+          simp only [hm, ho, elig, List.singleton_append, enum, List.map_append, hex]
+          congr 1
+          rw [List.map_flatMap]
+          refine List.flatMap_congr ?_   -- per group
+          intro g _
+          have hv : varStep .skip a (idx : Int) g = some (addInternal a (idx : Int) g true) := by
+            simp [varStep, hasInternalAt, ho]
+          obtain ⟨-, -, hmods, hcnt, heq⟩ := varStep_some hv
+          simp only [hv]
+          rw [ih (idx + 1) _ k (by rw [hcnt]; simp [ho]; omega)]
+          rw [elig_congr m a _ rem (idx + 1) (fun j hj => by rw [hmods]; simp; intro h; omega)]
+          rw [List.map_map]
+          refine List.map_congr_left ?_
+          intro T _
+          exact withChoice_cons a _ (idx : Int) g (heq ho) T
+
+/-! #### the enumeration of the recursion is the filtered power set with one group per site -/
+
+theorem flatMap_swap {α β γ : Type} (l : List α) (m : List β) (f : α → β → List γ) :
+    (l.flatMap fun a => m.flatMap fun b => f a b).Perm (m.flatMap fun b => l.flatMap fun a => f a b) := by
+  induction l with
+  | nil => simp [flatMap_const_nil]
+  | cons a l ih =>
+    simp only [List.flatMap_cons]
+    exact (List.Perm.append_left _ ih).trans (List.flatMap_append_perm m (f a) fun b => l.flatMap fun a => f a b)
+
+theorem filter_len_zero_sublists {α : Type} (E : List α) :
+    (sublists E).filter (fun S => (S.length : Int) ≤ ((0 : Nat) : Int)) = [[]] := by
+  induction E with
+  | nil => simp [sublists]
+  | cons x r ih =>
+    simp only [sublists, List.filter_append, ih]
+    have : ((sublists r).map (x :: ·)).filter (fun S => (S.length : Int) ≤ ((0 : Nat) : Int)) = [] := by
+      rw [List.filter_eq_nil_iff]
+      intro S hS
+      obtain ⟨S', -, rfl⟩ := List.mem_map.mp hS
+      simp
+    simp [this]
+
+theorem enum_perm (E : List (Int × List Group)) (k : Nat) :
+    (enum E k).Perm (((sublists E).filter fun S => (S.length : Int) ≤ (k : Int)).flatMap assignments) := by
+  induction E generalizing k with
+  | nil => simp [enum, sublists, assignments]
+  | cons p E ih =>
+    obtain ⟨i, gs⟩ := p
+    cases k with
+    | zero => rw [enum_zero, filter_len_zero_sublists]; simp [assignments]
+    | succ k =>
+      simp only [enum, sublists, List.filter_append, List.flatMap_append]
+      refine List.Perm.append ?_ (ih (k + 1))
+      -- the sub-lists that contain the head site
+      have hf : ((sublists E).map ((i, gs) :: ·)).filter (fun S => (S.length : Int) ≤ ((k + 1 : Nat) : Int))
+          = ((sublists E).filter fun S => (S.length : Int) ≤ (k : Int)).map ((i, gs) :: ·) := by
+        rw [List.filter_map]
+        congr 1
+        refine List.filter_congr ?_
+        intro S _
+        simp only [Function.comp, List.length_cons, decide_eq_decide]
+        omega
+      rw [hf, List.flatMap_map]
+      simp only [assignments]
+      refine List.Perm.trans ?_ (flatMap_swap gs _ _)
+      refine List.Perm.flatMap_left _ ?_    -- per group
+      intro g _
+      rw [← List.map_flatMap]
+      exact (ih k).map _
+
+/-! #### `new_mod_map` holds the offered groups -/
+
+def mget (m : ModMap) (j : Int) : List Group := (mapGet m j).getD []
+
+/-- no key maps to an empty list -/
+def NE (m : ModMap) : Prop := ∀ j, mapGet m j ≠ some []
+
+theorem mapGet_mapPush (m : ModMap) (i j : Int) (g : Group) :
+    mapGet (mapPush m i g) j = if j = i then some (mget m i ++ [g]) else mapGet m j := by
+  unfold mget
+  induction m with
+  | nil => simp only [mapPush, mapGet]; split <;> simp_all <;> omega
+  | cons p r ih =>
+    obtain ⟨k, w⟩ := p
+    simp only [mapPush]
+    split
+    · subst_vars; simp only [mapGet]; split <;> simp_all <;> omega
+    · simp only [mapGet, ih]; split <;> simp_all
+
+theorem mapGet_of_NE (m : ModMap) (h : NE m) (j : Int) :
+    mapGet m j = if mget m j = [] then none else some (mget m j) := by
+  unfold mget
+  cases hm : mapGet m j with
+  | none => simp
+  | some v =>
+    have : v ≠ [] := fun hv => h j (by rw [hm, hv])
+    simp [this]
+
+theorem push_groups (i : Int) (gs : List Group) (m : ModMap) (hne : NE m) :
+    NE (gs.foldl (fun m g => mapPush m i g) m) ∧
+    ∀ j, mget (gs.foldl (fun m g => mapPush m i g) m) j = if j = i then mget m i ++ gs else mget m j := by
+  induction gs generalizing m with
+  | nil => exact ⟨hne, fun j => by by_cases h : j = i <;> simp [h]⟩
+  | cons g gs ih =>
+    have hne1 : NE (mapPush m i g) := by
+      intro j; rw [mapGet_mapPush]; split
+      · simp
+      · exact hne j
+    have hget1 : ∀ j, mget (mapPush m i g) j = if j = i then mget m i ++ [g] else mget m j := by
+      intro j; unfold mget; rw [mapGet_mapPush]; split <;> simp [mget]
+    obtain ⟨h1, h2⟩ := ih (mapPush m i g) hne1
+    refine ⟨h1, fun j => ?_⟩
+    simp only [List.foldl_cons]
+    rw [h2 j, hget1 j, hget1 i]
+    by_cases h : j = i <;> simp [h]
+
+theorem push_sites (gs : List Group) (sites : List Int) (hnd : sites.Nodup) (m : ModMap) (hne : NE m) :
+    NE (sites.foldl (fun m i => gs.foldl (fun m g => mapPush m i g) m) m) ∧
+    ∀ j, mget (sites.foldl (fun m i => gs.foldl (fun m g => mapPush m i g) m) m) j
+      = if j ∈ sites then mget m j ++ gs else mget m j := by
+  induction sites generalizing m with
+  | nil => exact ⟨hne, fun j => by simp⟩
+  | cons i sites ih =>
+    obtain ⟨hni, hnd'⟩ := List.nodup_cons.mp hnd
+    obtain ⟨h1, h2⟩ := push_groups i gs m hne
+    obtain ⟨h3, h4⟩ := ih hnd' _ h1
+    refine ⟨h3, fun j => ?_⟩
+    simp only [List.foldl_cons]
+    rw [h4 j, h2 j]
+    by_cases hji : j = i
+    · subst hji; simp [hni]
+    · simp [hji]
+
+theorem push_rules (rules : List (Rule (List Group))) (hnd : ∀ r ∈ rules, r.1.Nodup) (m : ModMap) (hne : NE m) :
+    NE (rules.foldl (fun m r => r.1.foldl (fun m i => r.2.foldl (fun m g => mapPush m i g) m) m) m) ∧
+    ∀ j, mget (rules.foldl (fun m r => r.1.foldl (fun m i => r.2.foldl (fun m g => mapPush m i g) m) m) m) j
+      = mget m j ++ offered rules j := by
+  induction rules generalizing m with
+  | nil => exact ⟨hne, fun j => by simp [offered]⟩
+  | cons r rules ih =>
+    obtain ⟨h1, h2⟩ := push_sites r.2 r.1 (hnd r (List.mem_cons_self ..)) m hne
+    obtain ⟨h3, h4⟩ := ih (fun r' hr' => hnd r' (List.mem_cons_of_mem _ hr')) _ h1
+    refine ⟨h3, fun j => ?_⟩
+    simp only [List.foldl_cons]
+    rw [h4 j, h2 j]
+    simp only [offered, List.flatMap_cons]
+    by_cases hj : j ∈ r.1 <;> simp [hj]
+
+theorem mapGet_buildModMap (rules : List (Rule (List Group))) (hnd : ∀ r ∈ rules, r.1.Nodup) (j : Int) :
+    mapGet (buildModMap rules) j = if offered rules j = [] then none else some (offered rules j) := by
+  obtain ⟨h1, h2⟩ := push_rules rules hnd [] (fun j => by simp [mapGet])
+  unfold buildModMap
+  rw [mapGet_of_NE _ h1, h2]
+  by_cases h : offered rules j = [] <;> simp [mget, mapGet, h]
+
+theorem elig_eq_filterMap (m : ModMap) (a : Annotation) :
+    ∀ (rem idx : Nat), elig m a rem idx = (List.range' idx rem).filterMap fun (i : Nat) =>
+      match mapGet m (i : Int), modsAt a (i : Int) with
+      | some gs, none => some ((i : Int), gs)
+      | _, _ => none := by
+  intro rem
+  induction rem with
+  | zero => intro idx; rfl
+  | succ rem ih =>
+    intro idx
+    simp only [elig, List.range'_succ, List.filterMap_cons, ih]
+    cases mapGet m (idx : Int) <;> cases modsAt a (idx : Int) <;> simp
+
+theorem elig_buildModMap (a : Annotation) (rules : List (Rule (List Group))) (hnd : ∀ r ∈ rules, r.1.Nodup) :
+    elig (buildModMap rules) a a.seq.length 0 = eligible a rules := by
+  rw [elig_eq_filterMap, eligible, List.range_eq_range']
+  refine List.filterMap_congr ?_
+  intro i _
+  rw [mapGet_buildModMap rules hnd]
+  by_cases ho : offered rules (i : Int) = [] <;> cases hm : modsAt a (i : Int) <;> simp [ho, hm]
+
+/-- **mode skip, residues**: `_variable_mods_builder` yields exactly the forms of the subset enumeration, each as often -/
+theorem variableBuilder_skip_perm (a : Annotation) (rules : List (Rule (List Group))) (maxMods : Int)
+    (h0 : 0 ≤ maxMods) (hnd : ∀ r ∈ rules, r.1.Nodup) :
+    (variableBuilder a rules maxMods .skip).Perm (internalForms a rules maxMods) := by
+  unfold variableBuilder internalForms
+  obtain ⟨k, rfl⟩ := Int.eq_ofNat_of_zero_le h0
+  rw [varRec_skip_eq _ _ _ _ a k (by omega), elig_buildModMap a rules hnd]
+  exact (enum_perm _ k).map _
+
+/-! ### terminal variants -/
+
+theorem nWith_eq (mode : Mode) (a : Annotation) (p : Rule Group) :
+    nWith mode a p = { a with nterm := staticTable mode a.nterm (staticOffers [p] 0) } := by
+  have sp := applyStaticCore_spec a [] [p] [] mode
+  unfold nWith
+  generalize hr : applyStaticCore a [] [p] [] mode = r at sp
+  have h2 : r.nterm = staticTable mode a.nterm (staticOffers [p] 0) := sp.nterm
+  have h1 : ({ r with nterm := none } : Annotation) = { a with nterm := none } := by
+    rw [← hr]; unfold applyStaticCore
+    simp only [runRules_eq, dropEmpty, List.filter_nil, steps, List.flatMap_nil, List.foldl_nil]
+    exact fold_inv (fun x => ({ x with nterm := none } : Annotation)) _
+      (fun m new i => staticNtermStep_others a mode m new i) _ _
+  rw [← h2]
+  cases r; cases a; simp only [Annotation.mk.injEq] at h1 ⊢
+  simp_all
+
+theorem cWith_eq (mode : Mode) (a : Annotation) (p : Rule Group) :
+    cWith mode a p = { a with cterm := staticTable mode a.cterm (staticOffers [p] ((a.seq.length : Int) - 1)) } := by
+  have sp := applyStaticCore_spec a [] [] [p] mode
+  unfold cWith
+  generalize hr : applyStaticCore a [] [] [p] mode = r at sp
+  have h2 : r.cterm = staticTable mode a.cterm (staticOffers [p] ((a.seq.length : Int) - 1)) := sp.cterm
+  have h1 : ({ r with cterm := none } : Annotation) = { a with cterm := none } := by
+    rw [← hr]; unfold applyStaticCore
+    simp only [runRules_eq, dropEmpty, List.filter_nil, steps, List.flatMap_nil, List.foldl_nil]
+    exact fold_inv (fun x => ({ x with cterm := none } : Annotation)) _
+      (fun m new i => staticCtermStep_others a mode m new i) _ _
+  rw [← h2]
+  cases r; cases a; simp only [Annotation.mk.injEq] at h1 ⊢
+  simp_all
+
+theorem isPerm_refl {α : Type} [BEq α] (hr : ∀ x : α, (x == x) = true) (l : List α) : l.isPerm l = true := by
+  induction l with
+  | nil => rfl
+  | cons x l ih =>
+    simp only [List.isPerm, Bool.and_eq_true]
+    refine ⟨?_, ?_⟩
+    · simp only [List.contains_cons, hr, Bool.true_or]
+    · simp only [List.erase_cons, hr, if_true]; exact ih
+
+theorem modsEq_refl (x : Option (List Mod)) : modsEq x x = true := by
+  cases x with
+  | none => rfl
+  | some l => exact isPerm_refl (fun m => by simp) l
+
+theorem intervalsEq_refl (x : Option (List Interval)) : intervalsEq x x = true := by
+  cases x with
+  | none => rfl
+  | some l =>
+    simp only [intervalsEq, beq_self_eq_true, Bool.true_and]
+    refine isPerm_refl (fun iv => ?_) l
+    show intervalEq iv iv = true
+    simp [intervalEq, modsEq_refl]
+
+theorem annotEq_nterm (a : Annotation) (v : Option (List Mod)) :
+    annotEq { a with nterm := v } a = modsEq v a.nterm := by
+  unfold annotEq
+  simp only [modsEq_refl, intervalsEq_refl, beq_self_eq_true, Bool.true_and, Bool.and_true]
+  have : (((imods { a with nterm := v }).map (·.1) ++ (imods a).map (·.1)).all fun k =>
+      modsEq (modsAt { a with nterm := v } k) (modsAt a k)) = true := by
+    rw [List.all_eq_true]; intro k _; exact modsEq_refl _
+  simp [this]
+
+theorem annotEq_cterm (a : Annotation) (v : Option (List Mod)) :
+    annotEq { a with cterm := v } a = modsEq v a.cterm := by
+  unfold annotEq
+  simp only [modsEq_refl, intervalsEq_refl, beq_self_eq_true, Bool.true_and, Bool.and_true]
+  have : (((imods { a with cterm := v }).map (·.1) ++ (imods a).map (·.1)).all fun k =>
+      modsEq (modsAt { a with cterm := v } k) (modsAt a k)) = true := by
+    rw [List.all_eq_true]; intro k _; exact modsEq_refl _
+  simp [this]
+
+/-- the bases (terminal variants without residue mods) in the order in which `apply_variable_mods` expands them -/
+def variantBases (mode : Mode) (a : Annotation) (nt ct : List (Rule (List Group))) : List Annotation :=
+  nBases mode a nt ++
+    (((termPairs ct).flatMap fun p =>
+        ((nBases mode a nt).filterMap fun nb => if annotEq (cWith mode nb p) nb then none else some (cWith mode nb p))
+        ++ (if annotEq (cWith mode a p) a then [] else [cWith mode a p]))
+      ++ [a])
+
+theorem flatMap_filterMap' {α β γ : Type} (l : List α) (f : α → Option β) (g : β → List γ) :
+    (l.filterMap f).flatMap g = l.flatMap fun x => match f x with | some y => g y | none => [] := by
+  induction l with
+  | nil => rfl
+  | cons x l ih =>
+    simp only [List.filterMap_cons, List.flatMap_cons]
+    cases f x <;> simp [ih]
+
+theorem applyVariableCore_eq (a : Annotation) (internal nt ct : List (Rule (List Group))) (maxMods : Int) (mode : Mode) :
+    applyVariableCore a internal nt ct maxMods mode
+      = (variantBases mode a nt ct).flatMap fun b => variableBuilder b internal maxMods mode := by
+  unfold applyVariableCore variantBases
+  simp only [List.flatMap_append, List.flatMap_cons, List.flatMap_nil, List.append_nil]
+  congr 2
+  rw [List.flatMap_assoc]
+  refine List.flatMap_congr ?_
+  intro p _
+  rw [List.flatMap_append, flatMap_filterMap']
+  congr 1
+  · refine List.flatMap_congr ?_
+    intro nb _
+    split <;> simp_all
+  · split <;> simp
+
+theorem mem_nBases {mode : Mode} {a b : Annotation} {nt : List (Rule (List Group))} (h : b ∈ nBases mode a nt) :
+    ∃ p ∈ termPairs nt, b = { a with nterm := staticTable mode a.nterm (staticOffers [p] 0) } ∧
+      annotEq b a = false := by
+  unfold nBases at h
+  obtain ⟨p, hp, hb⟩ := List.mem_filterMap.mp h
+  refine ⟨p, hp, ?_⟩
+  simp only at hb
+  split at hb
+  · simp at hb
+  · simp only [Option.some.injEq] at hb
+    subst hb
+    rename_i hne
+    exact ⟨nWith_eq mode a p, by simpa using hne⟩
+
+/-- every base is the input with (possibly) new terminal states taken from a matching terminal rule -/
+theorem mem_variantBases {mode : Mode} {a b : Annotation} {nt ct : List (Rule (List Group))}
+    (h : b ∈ variantBases mode a nt ct) :
+    ∃ vn vc, b = { a with nterm := vn, cterm := vc } ∧
+      (vn = a.nterm ∨ ∃ p ∈ termPairs nt, vn = staticTable mode a.nterm (staticOffers [p] 0)) ∧
+      (vc = a.cterm ∨ ∃ p ∈ termPairs ct,
+        vc = staticTable mode a.cterm (staticOffers [p] ((a.seq.length : Int) - 1))) := by
+  unfold variantBases at h
+  rcases List.mem_append.mp h with h | h
+  · obtain ⟨p, hp, rfl, -⟩ := mem_nBases h
+    exact ⟨_, a.cterm, rfl, Or.inr ⟨p, hp, rfl⟩, Or.inl rfl⟩
+  · rcases List.mem_append.mp h with h | h
+    · obtain ⟨p', hp', h⟩ := List.mem_flatMap.mp h
+      rcases List.mem_append.mp h with h | h
+      · obtain ⟨nb, hnb, hb⟩ := List.mem_filterMap.mp h
+        obtain ⟨p, hp, rfl, -⟩ := mem_nBases hnb
+        split at hb
+        · simp at hb
+        · simp only [Option.some.injEq] at hb
+          subst hb
+          rw [cWith_eq]
+          exact ⟨_, _, rfl, Or.inr ⟨p, hp, rfl⟩, Or.inr ⟨p', hp', rfl⟩⟩
+      · split at h
+        · simp at h
+        · simp only [List.mem_singleton] at h
+          subst h
+          rw [cWith_eq]
+          exact ⟨a.nterm, _, rfl, Or.inl rfl, Or.inr ⟨p', hp', rfl⟩⟩
+    · simp only [List.mem_singleton] at h
+      rw [h]
+      exact ⟨a.nterm, a.cterm, rfl, Or.inl rfl, Or.inl rfl⟩
+
+theorem a_mem_variantBases (mode : Mode) (a : Annotation) (nt ct : List (Rule (List Group))) :
+    a ∈ variantBases mode a nt ct := by
+  unfold variantBases
+  simp
+
+/-- what a form yielded by `_variable_mods_builder` looks like (all modes) -/
+theorem variableBuilder_sound (b : Annotation) (rules : List (Rule (List Group))) (maxMods : Int) (mode : Mode)
+    (hnd : ∀ r ∈ rules, r.1.Nodup) (x : Annotation) (hx : x ∈ variableBuilder b rules maxMods mode) :
+    FrameI x b ∧ ∀ j : Int, modsAt x j = modsAt b j ∨
+      (0 ≤ j ∧ j < (b.seq.length : Int) ∧ ∃ g ∈ offered rules j,
+        ¬(mode = .skip ∧ (modsAt b j).isSome = true) ∧ modsAt x j = some (newVal mode (modsAt b j) g)) := by
+  unfold variableBuilder at hx
+  obtain ⟨hf, hj⟩ := varRec_sound _ _ _ _ _ _ _ hx
+  refine ⟨hf, fun j => ?_⟩
+  rcases hj j with h | ⟨h1, h2, gs, g, h3, h4, h5, h6⟩
+  · exact Or.inl h
+  · right
+    rw [mapGet_buildModMap rules hnd] at h3
+    split at h3
+    · simp at h3
+    · simp only [Option.some.injEq] at h3
+      subst h3
+      exact ⟨by simpa using h1, by simpa using h2, g, h4, h5, h6⟩
+
+theorem variableBuilder_nodup (b : Annotation) (rules : List (Rule (List Group))) (maxMods : Int) (mode : Mode)
+    (hnd : ∀ r ∈ rules, r.1.Nodup)
+    (hok : ∀ j : Int, offered rules j ≠ [] → SiteOK mode (modsAt b j) (offered rules j)) :
+    (variableBuilder b rules maxMods mode).Nodup := by
+  unfold variableBuilder
+  refine varRec_nodup _ _ _ _ _ _ (fun j gs _ _ h3 => ?_)
+  rw [mapGet_buildModMap rules hnd] at h3
+  split at h3
+  · simp at h3
+  · simp only [Option.some.injEq] at h3
+    subst h3
+    exact hok j ‹_›
+
+/-- terminal state of a form -/
+def tkey (x : Annotation) : Option (List Mod) × Option (List Mod) := (x.nterm, x.cterm)
+
+theorem applyVariableCore_nodup (a : Annotation) (internal nt ct : List (Rule (List Group))) (maxMods : Int)
+    (mode : Mode) (hnd : ∀ r ∈ internal, r.1.Nodup)
+    (hok : ∀ j : Int, offered internal j ≠ [] → SiteOK mode (modsAt a j) (offered internal j))
+    (hterm : ((variantBases mode a nt ct).map tkey).Nodup) :
+    (applyVariableCore a internal nt ct maxMods mode).Nodup := by
+  rw [applyVariableCore_eq, List.nodup_flatMap]
+  refine ⟨fun b hb => ?_, ?_⟩
+  · obtain ⟨vn, vc, rfl, -, -⟩ := mem_variantBases hb
+    exact variableBuilder_nodup _ _ _ _ hnd hok
+  · refine (List.pairwise_map.mp hterm).imp ?_
+    intro b b' hne
+    simp only [Function.onFun]
+    intro x hx hx'
+    have h1 := (variableBuilder_sound b internal maxMods mode hnd x hx).1
+    have h2 := (variableBuilder_sound b' internal maxMods mode hnd x hx').1
+    apply hne
+    unfold tkey
+    rw [← h1.nterm, ← h1.cterm, ← h2.nterm, ← h2.cterm]
+
 end ModBuilder
 end Pept
